@@ -28,7 +28,7 @@ func init() {
 }
 
 var concTexts = []string{"a + b * 2", "$t = a, $t + b", "a + b", "[regexp(s1, 'ab'), regexp(s2, '^(a)*$'), regexp(s2, 'ab')]", "(m).a + b",
-	"round(a) * 1000 + roundBank(b)", "round(a) + 1", "lower(s1)", "$c = ($c ?? 0) + 1, $c", "hour(useTimezone(t, z))", "len(toString(m))"}
+	"round(a) * 1000 + roundBank(b)", "round(a) + 1", "lower(s1)", "$c = ($c ?? 0) + 1, $c", "hour(useTimezone(t, z))", "len(toString(m))", "st.A + st.B.a"}
 var concParseTexts = []string{"'\\u4F11\\u4F34'+'\\x41'", "'\\u0041\\x62\\u4e2d'", "1 +\n (2 *", "1e1_0 + 2.5e-3", "a ? b", "f(p ? q)"}
 
 // concParseBytes: the same byte buffers are handed to every goroutine (a caller may parse one text from many goroutines);
@@ -70,7 +70,8 @@ var concDatas = mustParse(`<< [a |-> <<"int", 1>>, b |-> <<"int", 2>>],
             [t |-> <<"time", 19000, 3600000, 0>>, z |-> <<"str", <<80,97,99,105,102,105,99,47,70,105,106,105>>>>],
             [t |-> <<"time", 19000, 3600000, 0>>, z |-> <<"str", <<65,109,101,114,105,99,97,47,66,111,103,111,116,97>>>>],
             [t |-> <<"time", 19000, 3600000, 0>>, z |-> <<"str", <<69,117,114,111,112,101,47,65,116,104,101,110,115>>>>],
-            [t |-> <<"time", 19000, 3600000, 0>>, z |-> <<"str", <<65,115,105,97,47,75,97,114,97,99,104,105>>>>] >>`).([]any)
+            [t |-> <<"time", 19000, 3600000, 0>>, z |-> <<"str", <<65,115,105,97,47,75,97,114,97,99,104,105>>>>],
+  [st |-> <<"struct", [A |-> <<"int", 4>>, B |-> <<"map", [a |-> <<"f64", FALSE, <<2,5>>, -1>>]>>, N |-> <<"nilptr">>, P |-> <<"str", <<112>>>>], <<"c">>>>] >>`).([]any)
 
 var (
 	sharedOnce  sync.Once
@@ -325,6 +326,9 @@ func recordConc(args []string) int {
 					ti := (g + it) % len(trees)
 					var w, o any
 					mode := (g + it/7) % 5
+					if it == round*perRound && deepTree == nil {
+						ti, mode = len(trees)-1, 0 // every goroutine starts the round by evaluating the struct formula
+					}
 					if deepTree != nil {
 						mode = 5
 					}
@@ -373,6 +377,8 @@ func recordConc(args []string) int {
 							di = 3 + (g+it)%2
 						case 8:
 							di = -1 // a runner that is never given a data map
+						case 11:
+							di = len(concDatas) - 1 // the struct
 						case 10:
 							di = 5 // the map m
 						case 9:
